@@ -515,7 +515,13 @@ fn special_items(ctx: &Ctx, prop: &str) -> Vec<(String, usize)> {
             // one honest image well above 64 MiB *before* the small hostile files that follow in
             // this job: anything a load leaves behind in the process (size hints, pooled buffers)
             // is then charged to files that did not supply the bytes
-            v.push(("bomb-with-links".into(), if q { 80 } else { 100 }));
+            // (the hostile files come right after it: an intervening ordinary load may reset such state)
+            for _ in 0..if q { 2 } else { 4 } {
+                v.push(("bomb-with-links".into(), if q { 80 } else { 100 }));
+                v.push(("huge-cel-tiny-stream".into(), 1));
+                v.push(("huge-cel-tiny-stream".into(), 1));
+                v.push(("huge-cel-tiny-stream".into(), 1));
+            }
             for _ in 0..if q { 40 } else { 200 } {
                 v.push(("chunk-size-boundary".into(), 1));
             }
